@@ -116,9 +116,28 @@ def st_schema(args):
     return 1 if missing else 0
 
 
+def st_reach(args):
+    """Reach probes: every fault kind a check claims must actually have fired in its last run (a probe stuck at zero
+    means the workload or fault mix must change)."""
+    bad = []
+    for path in sorted(glob.glob(os.path.join(VERIF, "evidence", "*.json"))):
+        ev = json.load(open(path))
+        cov = ev["coverage"]
+        zeros = []
+        for group in ("faults_fired", "reach_probes"):
+            for k, v in (cov.get(group) or {}).items():
+                if isinstance(v, (int, float)) and v == 0 and "fresh_interpreter" not in k and "constructor_refused" not in k and "invalid" not in k \
+                        and "silent_structural" not in k and "tainted" not in k:
+                    zeros.append(f"{group}.{k}")
+        print(os.path.basename(path), ev["tier"], "evaluations", cov["evaluations"], "zero probes:", zeros or "none")
+        if zeros:
+            bad.append(path)
+    return 1 if bad else 0
+
+
 def main(argv):
     name = argv[0] if argv else "setup"
-    fn = {"setup": st_setup, "determinism": st_determinism, "schema": st_schema}.get(name)
+    fn = {"setup": st_setup, "determinism": st_determinism, "schema": st_schema, "reach": st_reach}.get(name)
     if name == "mutants":
         from bcsim import mutants
 
